@@ -17,6 +17,7 @@
 import IocProofs.Lemmas.M2Inv
 import Ioc.FactorySkel
 import Ioc.Generated.Facts
+import IocProofs.Lemmas.SemCreate
 namespace Ioc.C03
 open Ioc.M2
 
@@ -158,5 +159,74 @@ theorem C03_inject_skeleton : Ioc.Facts.injectSkel = Ioc.expectedInjectSkel ∧ 
 /-- doCreateComponent / getEarlyBeanReference: early exposure before population, the version check reads the early
     reference with allowEarlyReference = false and consults the dependents of BOTH the early reference and the raw meta -/
 theorem C03_version_check_skeleton : Ioc.Facts.factorySkel = Ioc.expectedFactorySkel := rfl
+
+/-! ### the tie to the code: the version check IS the regenerated program of doCreateComponent
+
+`Ioc.Progs.fac_doCreateComponent` is the syntax tree of `defaultFactory.doCreateComponent` (container/factory/factory.go),
+re-translated from /repo's source on every run into the MiniGo deep embedding (Ioc.GoSem).  Its collaborators — the registry
+calls, populateComponent, InitializeComponent, genProxyComponent, the dependents lists — are arbitrary data (`Sem.DCC`).
+Run by the interpreter it returns `Sem.createDecision` and makes its effectful calls in the order `createDecision` lists:
+early exposure (AddSingletonFactory) BEFORE population, then initialization, then the reconciliation with the early
+reference.  Any edit of that function (which earlier seeded changes C01A, C03A, C03D, C04D all were) changes the term this
+theorem is about. -/
+
+theorem C03_code_doCreateComponent (d : Sem.DCC) (hc : Sem.dccConsistent d) :
+    Go.run (Sem.dccPrims d) Progs.fac_doCreateComponent [.int d.n, .ref d.n 0] [] =
+      some (Sem.encDecision d.n (Sem.createDecision d).1, (Sem.createDecision d).2) :=
+  Sem.doCreateComponent_sem d hc
+
+/-- what that decision guarantees when an early reference of version `e` was handed out (the situation of a cycle):
+    a component that initialization did not wrap is published AS that early reference; a wrapped one is published only
+    if no dependent of the early reference (or of the raw instance) has already finished — otherwise the creation fails.
+    This is the rule `C03_stale_fails` / `C03_wrapped_with_finished_holder_fails` state for the machine. -/
+theorem C03_code_decision (d : Sem.DCC) (e w : Nat)
+    (hx : (d.singleton && d.allow && d.inCrOf d.n) = true) (hp : d.populateOk = true) (hi : d.initRes = some w)
+    (hpr : d.proxyOk = true) (he : d.earlyRes = some (some e)) :
+    (w = 0 → (Sem.createDecision d).1 = some e) ∧
+    (w ≠ 0 → ((Sem.createDecision d).1 = some w ↔ ∀ x ∈ d.depsEarly ++ d.depsRaw, d.inCrOf x = true) ∧
+             ((Sem.createDecision d).1 = none ↔ ∃ x ∈ d.depsEarly ++ d.depsRaw, d.inCrOf x = false)) := by
+  constructor
+  · intro hw
+    simp [Sem.createDecision, hx, hp, hi, hpr, he, hw]
+  · intro hw
+    by_cases hall : ∀ x ∈ d.depsEarly ++ d.depsRaw, d.inCrOf x = true
+    · have hemp : ((d.depsEarly ++ d.depsRaw).filter (fun x => !(d.inCrOf x))).isEmpty = true := by
+        simp only [List.isEmpty_iff, List.filter_eq_nil_iff]
+        intro x hxm; simp [hall x hxm]
+      have hne : ¬ ∃ x ∈ d.depsEarly ++ d.depsRaw, d.inCrOf x = false := by
+        rintro ⟨x, hxm, hf⟩; rw [hall x hxm] at hf; exact absurd hf (by decide)
+      simp only [Sem.createDecision, hx, hp, hi, hpr, he, hw, hemp]
+      simp [hw]
+      intro x hxm; exact hall x (by simpa using hxm)
+    · have hemp : ((d.depsEarly ++ d.depsRaw).filter (fun x => !(d.inCrOf x))).isEmpty = false := by
+        cases h : ((d.depsEarly ++ d.depsRaw).filter (fun x => !(d.inCrOf x))).isEmpty with
+        | false => rfl
+        | true =>
+          exfalso; apply hall
+          intro x hxm
+          simp only [List.isEmpty_iff, List.filter_eq_nil_iff] at h
+          have := h x hxm
+          simpa using this
+      have hex : ∃ x ∈ d.depsEarly ++ d.depsRaw, d.inCrOf x = false := by
+        apply Classical.byContradiction
+        intro hno
+        apply hall
+        intro x hxm
+        cases hv : d.inCrOf x with
+        | true => rfl
+        | false => exact absurd ⟨x, hxm, hv⟩ hno
+      simp only [Sem.createDecision, hx, hp, hi, hpr, he, hw, hemp]
+      simp [hw]
+      obtain ⟨x, hxm, hf⟩ := hex
+      exact ⟨x, by simpa using hxm, hf⟩
+
+/-- non-vacuity: a wrapped component (version 2) whose early reference (version 1) sits in a holder that already
+    finished (3, not in creation) is refused; with that holder still in creation it is published as version 2 -/
+def exDCC (inCr : Nat → Bool) : Sem.DCC :=
+  { n := 7, singleton := true, allow := true, populateOk := true, initRes := some 2, proxyOk := true,
+    earlyRes := some (some 1), depsEarly := [3], depsRaw := [], inCrOf := inCr }
+example : (Sem.createDecision (exDCC (· == 7))).1 = none := by decide
+example : (Sem.createDecision (exDCC (fun x => x == 7 || x == 3))).1 = some 2 := by decide
+example : Sem.dccConsistent (exDCC (· == 7)) := by intro h; cases h
 
 end Ioc.C03
